@@ -96,6 +96,32 @@ theorem C06_call_params (args backup : List Arg) (argId : Nat) (cls : Option ICl
 theorem C06_guard_count (as : List Arg) :
     methodCheckStatement as = "if length(varargin) == " ++ toString as.length ++ isaChecks as .plain ++ "\n" := rfl
 
+/-- the guard clause of the argument standing at (1-based) position `i` -/
+def guardClause (mode : FmtMode) (a : Arg) (i : Nat) : String :=
+  " && isa(varargin{" ++ toString i ++ "},'" ++ checkType a.ctype.typename mode ++ "')" ++ sizeChecks a.ctype.typename.name i
+
+theorem join_cons' (x : String) (xs : List String) : String.join (x :: xs) = x ++ String.join xs := by
+  simp [String.join_cons]
+
+theorem isaChecks_go (mode : FmtMode) (as : List Arg) (k : Nat) :
+    isaChecks.go mode k as = String.join ((as.zipIdx k).map fun p => guardClause mode p.1 p.2) := by
+  induction as generalizing k with
+  | nil => unfold isaChecks.go; rfl
+  | cons a r ih =>
+    unfold isaChecks.go
+    rw [ih (k + 1), List.zipIdx_cons, List.map_cons, join_cons']
+    unfold guardClause
+    simp only [String.append_assoc]
+
+/-- the MATLAB-side guard tests the i-th argument's MATLAB type, for every i and nothing else: after the count test it is
+    the concatenation, for i = 1 … n in order, of `isa(varargin{i}, '<MATLAB class of the i-th declared parameter>')`
+    (plus the `size` tests of Vector / Matrix / Point parameters at the same index) — for every argument list -/
+theorem C06_guard_clauses (as : List Arg) :
+    methodCheckStatement as = "if length(varargin) == " ++ toString as.length
+      ++ String.join ((as.zipIdx 1).map fun p => guardClause .plain p.1 p.2) ++ "\n" := by
+  unfold methodCheckStatement isaChecks
+  rw [isaChecks_go]
+
 /-- non-vacuity: three parameters, the last two defaulted → arities 3, 2, 1 -/
 example :
     let t : CType := .simple ⟨[], "int", []⟩ .plain true
